@@ -43,8 +43,10 @@ pub trait HasChildren: HasContext {
 
     fn append(&self, value: Rc<XmlItem>) -> error::Result<Rc<XmlItem>> {
         let id = self.last_child_or_self_id();
+        // the order key moves only once the hierarchy / type checks of insert_by_id have accepted the node
+        let value = self.insert_by_id(value, None)?;
         value.set_order_after(id);
-        self.insert_by_id(value, None)
+        Ok(value)
     }
 
     fn delete(&self, id: usize) -> Option<Rc<XmlItem>> {
@@ -67,10 +69,14 @@ pub trait HasChildren: HasContext {
 
     fn insert_before(&self, value: Rc<XmlItem>, id: usize) -> error::Result<Rc<XmlItem>> {
         self.child_index(id).ok_or(error::Error::OufOfIndex(id))?;
-        value
-            .set_order_before(id)
-            .ok_or(error::Error::OufOfIndex(id))?;
-        self.insert_by_id(value, Some(id))
+        if value.id() == id {
+            // a node cannot be inserted before itself (the order lookup used to refuse this)
+            return Err(error::Error::OufOfIndex(id));
+        }
+        // the order key moves only once the hierarchy / type checks of insert_by_id have accepted the node
+        let value = self.insert_by_id(value, Some(id))?;
+        value.set_order_before(id);
+        Ok(value)
     }
 }
 
